@@ -692,7 +692,13 @@ func driveOne(res *hx.Result, tw *hx.TraceWriter, tr int64, tlen int, stub strin
 		if rng.Intn(4) == 0 {
 			d.Inp = "unconf"
 		}
+		forceReps := false
 		switch x := rng.Intn(10); {
+		case x < 1 && d.Kind != "form" && !actDead:
+			// the existing contract is not confirmed yet: always as a run of repeated failures
+			d.PV = "noelem"
+			d.Fault = earlyFaults[rng.Intn(len(earlyFaults))]
+			forceReps = true
 		case x < 2: // clean success (when the chain relation allows it)
 		case x < 4:
 			d.PV = driverPVs[rng.Intn(len(driverPVs))]
@@ -710,7 +716,7 @@ func driveOne(res *hx.Result, tw *hx.TraceWriter, tr int64, tlen int, stub strin
 		}
 		// runs of the same failing attempt: the NoExhaustion part of the property
 		reps := 1
-		if rng.Intn(3) == 0 {
+		if rng.Intn(3) == 0 || forceReps {
 			reps = 2 + rng.Intn(3)
 		}
 		for rep := 0; rep < reps; rep++ {
